@@ -203,8 +203,8 @@ theorem consecutive_periods_tile (f : Freq) (hf : f ∈ regularFreqs) (s : Int) 
   · exact tiling_Q s
   · exact tiling_M s
 
-/-- start ≤ middle ≤ end inside every regular period, and all three are valid calendar dates
-of the period's own year. -/
+/-- start ≤ middle ≤ end inside every regular period (that all three are valid calendar dates of the period's own year and
+segment is `accessors_agree_with_dates` below). -/
 theorem start_le_middle_le_end (f : Freq) (hf : f ∈ regularFreqs) (s : Int) :
     ∃ a m b, dayOrd ⟨f, s⟩ .start = .ok a ∧ dayOrd ⟨f, s⟩ .middle = .ok m ∧ dayOrd ⟨f, s⟩ .end_ = .ok b ∧
       a ≤ m ∧ m ≤ b := by
@@ -230,6 +230,48 @@ theorem start_le_middle_le_end (f : Freq) (hf : f ∈ regularFreqs) (s : Int) :
     simp [dayOrd, toYmd, toYearSegment, toYearSegmentYear, toYearSegmentSeg, Freq.value, freqMonthly,
       Int.fdiv_eq_ediv_of_nonneg, Int.fmod_eq_emod_of_nonneg, mdrTable, mdrM_end, mdrM_start, mdrM_middle,
       lookupSeg, bind, Except.bind, pure, Except.pure, h, ymd2ord, dbm, daysInMonth, hl] <;> omega
+
+/-- the date a period resolves to is a valid calendar date in the period's own year and segment (match form) -/
+def AccessorsAgree (p : Period) (pos : Pos) : Prop :=
+  match toYmd p pos with
+  | .ok (y, m, d) => ValidYmd y m d ∧ toYearSegment p = .ok (y, monthToSegment p.freq m)
+  | .error _ => False
+
+/-- **Accessors agree with the calendar dates.** For every regular period and every position, the date the period resolves to
+is a valid calendar date whose year is the period's `year` and whose month lies in the period's `segment`. -/
+theorem accessors_agree_with_dates (f : Freq) (hf : f ∈ regularFreqs) (s : Int) (pos : Pos) : AccessorsAgree ⟨f, s⟩ pos := by
+  simp [regularFreqs] at hf
+  rcases hf with h | h | h | h <;> subst h
+  · cases pos <;> cases hl : isLeap s <;>
+    simp [AccessorsAgree, toYmd, toYearSegment, toYearSegmentYear, toYearSegmentSeg, Freq.value, freqYearly, monthToSegment, monthToSegmentY,
+      Int.fdiv_eq_ediv_of_nonneg, Int.fmod_eq_emod_of_nonneg, mdrTable, mdrY_end, mdrY_start, mdrY_middle,
+      lookupSeg, bind, Except.bind, pure, Except.pure, ValidYmd, daysInMonth, hl]
+  · have hr : s % 2 = 0 ∨ s % 2 = 1 := by omega
+    rcases hr with h | h <;> cases pos <;> cases hl : isLeap (s / 2) <;>
+    simp [AccessorsAgree, toYmd, toYearSegment, toYearSegmentYear, toYearSegmentSeg, Freq.value, freqHalfyearly, monthToSegment, monthToSegmentH,
+      Int.fdiv_eq_ediv_of_nonneg, Int.fmod_eq_emod_of_nonneg, mdrTable, mdrH_end, mdrH_start, mdrH_middle,
+      lookupSeg, bind, Except.bind, pure, Except.pure, h, ValidYmd, daysInMonth, hl] <;> omega
+  · have hr : s % 4 = 0 ∨ s % 4 = 1 ∨ s % 4 = 2 ∨ s % 4 = 3 := by omega
+    rcases hr with h | h | h | h <;> cases pos <;> cases hl : isLeap (s / 4) <;>
+    simp [AccessorsAgree, toYmd, toYearSegment, toYearSegmentYear, toYearSegmentSeg, Freq.value, freqQuarterly, monthToSegment, monthToSegmentQ,
+      Int.fdiv_eq_ediv_of_nonneg, Int.fmod_eq_emod_of_nonneg, mdrTable, mdrQ_end, mdrQ_start, mdrQ_middle,
+      lookupSeg, bind, Except.bind, pure, Except.pure, h, ValidYmd, daysInMonth, hl] <;> omega
+  · have hr : s % 12 = 0 ∨ s % 12 = 1 ∨ s % 12 = 2 ∨ s % 12 = 3 ∨ s % 12 = 4 ∨ s % 12 = 5 ∨ s % 12 = 6 ∨
+        s % 12 = 7 ∨ s % 12 = 8 ∨ s % 12 = 9 ∨ s % 12 = 10 ∨ s % 12 = 11 := by omega
+    rcases hr with h | h | h | h | h | h | h | h | h | h | h | h <;> cases pos <;> cases hl : isLeap (s / 12) <;>
+    simp [AccessorsAgree, toYmd, toYearSegment, toYearSegmentYear, toYearSegmentSeg, Freq.value, freqMonthly, monthToSegment, monthToSegmentM,
+      Int.fdiv_eq_ediv_of_nonneg, Int.fmod_eq_emod_of_nonneg, mdrTable, mdrM_end, mdrM_start, mdrM_middle,
+      lookupSeg, bind, Except.bind, pure, Except.pure, h, ValidYmd, daysInMonth, hl] <;> omega
+
+/-- the match form unfolds to the existential reading -/
+theorem AccessorsAgree.exists {p : Period} {pos : Pos} (h : AccessorsAgree p pos) :
+    ∃ y m d, toYmd p pos = .ok (y, m, d) ∧ ValidYmd y m d ∧ toYearSegment p = .ok (y, monthToSegment p.freq m) := by
+  unfold AccessorsAgree at h
+  split at h
+  · rename_i y m d heq; exact ⟨y, m, d, heq, h.1, h.2⟩
+  · exact absurd h id
+
+example : AccessorsAgree ⟨.M, 24241⟩ .end_ := accessors_agree_with_dates .M (by simp [regularFreqs]) 24241 .end_
 
 /-- daily periods: `(year, segment)` is the calendar year of the ordinal and the 1-based day of that year -/
 theorem daily_year_segment (n : Int) :
@@ -497,6 +539,30 @@ theorem span_operators_mixed (p q : Period) (h : p.freq ≠ q.freq) :
     Span.rshift (some (.res p)) (some (.res q)) = .error .mixedFreq ∧
     Span.lshift (some (.res p)) (some (.res q)) = .error .mixedFreq := by
   simp [Span.rshift, Span.lshift, Span.make, h, Ne.symm h, throw, throwThe, MonadExceptOf.throw]
+
+/-- **Mixed frequencies are rejected by resolution too.** Whatever the shape of the span (both ends resolved, one or both
+contextual), if the two ends are of different frequencies AFTER resolution against the context, `resolve` raises the
+mixed-frequency error; it never hands out a span with ends of two frequencies. -/
+theorem span_resolve_mixed_rejected (s : Span) (c : Ctx) (p q : Period)
+    (hp : s.start.resolve c = .res p) (hq : s.stop.resolve c = .res q) (h : p.freq ≠ q.freq) :
+    s.resolve c = .error .mixedFreq := by
+  simp [Span.resolve, hp, hq, Span.make, h, throw, throwThe, MonadExceptOf.throw]
+
+/-- and conversely a successful resolution has both ends of one frequency -/
+theorem span_resolve_ok_same_freq (s : Span) (c : Ctx) (s' : Span) (h : s.resolve c = .ok s') :
+    ∃ p q, s'.start = .res p ∧ s'.stop = .res q ∧ p.freq = q.freq := by
+  have hres : ∀ e : Endpoint, ∃ p, e.resolve c = .res p := by
+    intro e; cases e with
+    | res p => exact ⟨p, rfl⟩
+    | ctx fe o => cases fe <;> exact ⟨_, rfl⟩
+  obtain ⟨p, hp⟩ := hres s.start
+  obtain ⟨q, hq⟩ := hres s.stop
+  simp only [Span.resolve, hp, hq, Span.make, Option.getD_some] at h
+  split at h
+  · rename_i hf; cases h; exact ⟨p, q, rfl, rfl, hf⟩
+  · cases h
+
+example : (⟨.res ⟨.Y, 2020⟩, .ctx true 0, 1⟩ : Span).resolve ⟨⟨.H, 4040⟩, ⟨.H, 4051⟩⟩ = .error .mixedFreq := by decide
 
 /-! ## 6a. Slices of a span -/
 
